@@ -542,12 +542,71 @@ func (x *Exec) aliasRoot(e ast.Expr) *types.Var {
 	}
 }
 
+// valueAliasesEntry reports whether the storage term of a slice or map value mentions an array the receiver or a
+// parameter held on entry (a syntactic test on the symbolic value: fresh allocations get fresh names).
+func (x *Exec) valueAliasesEntry(v Val) bool {
+	var terms []string
+	switch t := v.(type) {
+	case Sl:
+		terms = leaves(t.Arr)
+	case Mp:
+		terms = append([]string{t.Has}, leaves(t.Val)...)
+	default:
+		return false
+	}
+	if x.entry == nil {
+		return false
+	}
+	var roots []string
+	for obj, ev := range x.entry.vars {
+		pv, ok := obj.(*types.Var)
+		if !ok || !(x.isParam(pv) || (x.sig.Recv() != nil && pv == x.sig.Recv())) {
+			continue
+		}
+		for _, l := range leaves(ev) {
+			if strings.Contains(l, "!") && !strings.ContainsAny(l, " ()") {
+				roots = append(roots, l)
+			}
+		}
+	}
+	isSym := func(c byte) bool {
+		return c == '!' || c == '.' || c == '_' || (c >= '0' && c <= '9') || (c >= 'a' && c <= 'z') || (c >= 'A' && c <= 'Z')
+	}
+	for _, t := range terms {
+		for _, r := range roots {
+			for i := strings.Index(t, r); i >= 0; {
+				before := i == 0 || !isSym(t[i-1])
+				after := i+len(r) == len(t) || !isSym(t[i+len(r)])
+				if before && after {
+					// only array-sorted roots matter; scalars (lengths, offsets) may legitimately recur
+					if x.c.isArrayConst(r) {
+						return true
+					}
+				}
+				j := strings.Index(t[i+1:], r)
+				if j < 0 {
+					break
+				}
+				i += 1 + j
+			}
+		}
+	}
+	return false
+}
+
 func (x *Exec) execReturn(n *ast.ReturnStmt, st *State) *State {
 	if x.contract != nil && x.contract.FreshResult && x.depth == 0 {
 		for _, r := range n.Results {
 			if k, _ := classify(x.typeOf(r)); k == kSlice || k == kMap {
 				root := x.aliasRoot(r)
-				x.c.oblige("fresh-result", "", st.pc, boolTerm(root == nil), n.Pos(), "returned slice/map does not alias the receiver's or a parameter's storage")
+				// ... and by value: the backing array of the returned slice/map must not be a term over the storage the
+				// receiver or a parameter had on entry (catches `r := recv.field[k]; return r` and slices.Clip(recv.field))
+				aliased := root != nil
+				if !aliased {
+					rv, _ := x.eval(r, st.clone())
+					aliased = x.valueAliasesEntry(rv)
+				}
+				x.c.oblige("fresh-result", "", st.pc, boolTerm(!aliased), n.Pos(), "returned slice/map does not alias the receiver's or a parameter's storage")
 			}
 		}
 	}
